@@ -9,13 +9,25 @@ Fail-closed: every function of the analysis is either
     the `visit_block` folds and the driver loop of `do_liveness_analysis`.
 Anything else raises Untranslatable(where, why).
 
+Equivalent spellings are accepted (harness/c01_pynorm.py gives the argument for each rewrite): if/elif/else chains whose
+branches all return vs the early-return form, `isinstance(x, (A, B))` / `T1 or T2` dispatch tests with a shared arm,
+any split on the three values of constant_if_condition(stmt) that tests it with is None / is not None / truth / not /
+and / or (partial evaluation per value), `v = E; return v`, renamed parameters (by position) and, inside the
+template-verified functions, renamed locals, single-use temporaries and nested vs conjoined ifs.  The order of the arms
+of a dispatcher is irrelevant because the recognised tests are pairwise disjoint: isinstance on the distinct,
+unrelated classes ast.Assign / AnnAssign / Return / If / For / While / Break / FunctionDef and list; is_print_call and
+is_doc_string only hold of ast.Expr statements with a Call resp. a Constant value.
+
 Arms for constructs that Script.Syntax does not have (AnnAssign, FunctionDef, print, docstring) are
 recognised and listed as not modelled; an unknown arm is an error.
 """
 from __future__ import annotations
 
 import ast
+import copy
 import os
+
+from harness import c01_pynorm as pynorm
 
 
 class Untranslatable(Exception):
@@ -165,9 +177,10 @@ def _check_template(name, node, where):
     tmpl = TEMPLATES[name]
     tmpls = tmpl if isinstance(tmpl, list) else [tmpl]
     got = _norm_dump(node)
+    cgot = pynorm.alpha_dump(node)
     for t in tmpls:
-        want = _norm_dump(ast.parse(t).body[0])
-        if got == want:
+        tn = ast.parse(t).body[0]
+        if got == _norm_dump(tn) or cgot == pynorm.alpha_dump(tn):
             return
     raise Untranslatable(where, f"function `{name}` no longer has the shape the translator knows (line {node.lineno})")
 
@@ -251,9 +264,16 @@ def _bin(op, a, b, cx, where):
 
 def tr_arm(stmts, cx: ArmCtx, where):
     """Translate the body of one `if isinstance(...)` arm to a Coq expression (option-valued iff cx.monadic)."""
-    stmts = list(stmts)
+    stmts = pynorm.flatten(list(stmts))
     if not stmts:
         raise Untranslatable(where, "empty arm")
+    # v = E; return v   ==   return E     (v is not read anywhere else: it goes out of scope with the return)
+    if (len(stmts) >= 2 and isinstance(stmts[-1], ast.Return) and isinstance(stmts[-1].value, ast.Name)
+            and isinstance(stmts[-2], ast.Assign) and len(stmts[-2].targets) == 1
+            and isinstance(stmts[-2].targets[0], ast.Name) and stmts[-2].targets[0].id == stmts[-1].value.id
+            and stmts[-1].value.id not in cx.fields
+            and not any(isinstance(n, ast.Name) and n.id == stmts[-1].value.id for n in ast.walk(stmts[-2].value))):
+        stmts = stmts[:-2] + [ast.copy_location(ast.Return(value=stmts[-2].value), stmts[-1])]
     st = stmts[0]
     rest = stmts[1:]
 
@@ -271,33 +291,42 @@ def tr_arm(stmts, cx: ArmCtx, where):
         return ret(t, o)
     if isinstance(st, ast.Expr) and isinstance(st.value, ast.Constant) and isinstance(st.value.value, str):
         return tr_arm(rest, cx, where)
-    # constant_cond = self.constant_if_condition(stmt); if constant_cond is None: A elif constant_cond: B else: C
-    if isinstance(st, ast.Assign) and _src(st) == "constant_cond = self.constant_if_condition(stmt)":
-        if len(rest) != 1 or not isinstance(rest[0], ast.If):
-            raise Untranslatable(where, f"constant-condition split has an unexpected shape (line {st.lineno})")
-        i1 = rest[0]
-        if _src(i1.test) != "constant_cond is None" or len(i1.orelse) != 1 or not isinstance(i1.orelse[0], ast.If) \
-                or _src(i1.orelse[0].test) != "constant_cond":
-            raise Untranslatable(where, f"constant-condition split has an unexpected shape (line {i1.lineno})")
-        a = tr_arm(i1.body, _fork(cx), where)
-        b = tr_arm(i1.orelse[0].body, _fork(cx), where)
-        c = tr_arm(i1.orelse[0].orelse, _fork(cx), where)
+    # NAME = self.constant_if_condition(stmt) followed by any split on its three values: partial evaluation per value
+    if (isinstance(st, ast.Assign) and len(st.targets) == 1 and isinstance(st.targets[0], ast.Name)
+            and _src(st.value) == "self.constant_if_condition(stmt)"):
+        name = st.targets[0].id
+        if "stmt.test!expr" not in cx.fields:
+            raise Untranslatable(where, f"constant_if_condition consulted outside the arm for ast.If (line {st.lineno})")
+        arms3 = []
+        for v in (None, True, False):
+            arm = _peval(rest, name, v, where)
+            if any(isinstance(n, ast.Name) and n.id == name for a in arm for n in ast.walk(a)):
+                raise Untranslatable(where, f"`{name}` is used other than in a test on its value (line {st.lineno})")
+            arms3.append(tr_arm(arm, _fork(cx), where))
+        a, b, c = arms3
         return f"(match cic {cx.fields['stmt.test!expr']} with None => {a} | Some true => {b} | Some false => {c} end)"
-    # fixpoint:  prev = None; curr = E0; while curr != prev: prev = curr; curr = E; return curr
-    if isinstance(st, ast.Assign) and _src(st) == "prev = None":
+    # fixpoint:  P = None; C = E0; while C != P: P = C; C = E; return C [| X]      (any two local names P, C)
+    if (isinstance(st, ast.Assign) and len(st.targets) == 1 and isinstance(st.targets[0], ast.Name)
+            and isinstance(st.value, ast.Constant) and st.value.value is None):
+        pn = st.targets[0].id
         if len(rest) != 3:
             raise Untranslatable(where, f"fixpoint loop has an unexpected shape (line {st.lineno})")
         init, loop, fin = rest
-        ok = (isinstance(init, ast.Assign) and _src(init.targets[0]) == "curr" and isinstance(loop, ast.While)
-              and _src(loop.test) == "curr != prev" and len(loop.body) == 2 and _src(loop.body[0]) == "prev = curr"
-              and isinstance(loop.body[1], ast.Assign) and _src(loop.body[1].targets[0]) == "curr" and not loop.orelse)
+        ok = (isinstance(init, ast.Assign) and len(init.targets) == 1 and isinstance(init.targets[0], ast.Name)
+              and init.targets[0].id != pn)
+        cn = init.targets[0].id if ok else None
+        ok = (ok and isinstance(loop, ast.While) and _src(loop.test) in (f"{cn} != {pn}", f"{pn} != {cn}")
+              and len(loop.body) == 2 and _src(loop.body[0]) == f"{pn} = {cn}"
+              and isinstance(loop.body[1], ast.Assign) and _src(loop.body[1].targets[0]) == cn and not loop.orelse
+              and pn not in cx.locals and cn not in cx.locals
+              and not any(isinstance(n, ast.Name) and n.id in (pn, cn) for n in ast.walk(init.value)))
         if not ok:
             raise Untranslatable(where, f"fixpoint loop has an unexpected shape (line {st.lineno})")
         if not cx.monadic:
             raise Untranslatable(where, "fixpoint in a total analysis")
         e0, o0 = tr_set(init.value, cx, where)
         cx2 = _fork(cx)
-        cx2.locals["prev"] = ("prev_", False)
+        cx2.locals[pn] = ("prev_", False)
         step, os_ = tr_set(loop.body[1].value, cx2, where)
         step = step if os_ else f"(Some {step})"
         it = f"(iterate fuel (fun prev_ => {step})"
@@ -306,9 +335,9 @@ def tr_arm(stmts, cx: ArmCtx, where):
         else:
             res = f"{it} {e0})"
         cx.shared["fixpoint"] = res
-        # what follows the loop: `return curr` or `return curr | X`
+        # what follows the loop: `return C` or `return C | X`
         cx3 = _fork(cx)
-        cx3.locals["curr"] = ("curr_", False)
+        cx3.locals[cn] = ("curr_", False)
         if not isinstance(fin, ast.Return):
             raise Untranslatable(where, f"fixpoint loop must be followed by return (line {fin.lineno})")
         ft, fo = tr_set(fin.value, cx3, where)
@@ -332,6 +361,49 @@ def tr_arm(stmts, cx: ArmCtx, where):
             cx2.shared["fixpoint"] = f"(let {name}_ := {t} in {cx2.shared['fixpoint']})"
         return f"(let {name}_ := {t} in {body})"
     raise Untranslatable(where, f"statement `{_src(st)[:60]}` outside the translated fragment (line {st.lineno})")
+
+
+def _decide(test, name, v, where):
+    """Value of a test on the variable `name` when it holds v (None / True / False); None when the test does not mention it."""
+    if isinstance(test, ast.Name) and test.id == name:
+        return bool(v)
+    if isinstance(test, ast.UnaryOp) and isinstance(test.op, ast.Not):
+        d = _decide(test.operand, name, v, where)
+        return None if d is None else (not d)
+    if (isinstance(test, ast.Compare) and len(test.ops) == 1 and isinstance(test.left, ast.Name) and test.left.id == name
+            and isinstance(test.comparators[0], ast.Constant)
+            and any(test.comparators[0].value is k_ for k_ in (None, True, False))):
+        k = test.comparators[0].value
+        op = test.ops[0]
+        if isinstance(op, ast.Is):
+            return v is k
+        if isinstance(op, ast.IsNot):
+            return v is not k
+    if isinstance(test, ast.BoolOp):
+        ds = [_decide(t, name, v, where) for t in test.values]
+        if all(d is not None for d in ds):
+            return all(ds) if isinstance(test.op, ast.And) else any(ds)
+    if any(isinstance(n, ast.Name) and n.id == name for n in ast.walk(test)):
+        raise Untranslatable(where, f"test `{_src(test)}` on the constant-condition value is outside the recognised forms (line {test.lineno})")
+    return None
+
+
+def _peval(stmts, name, v, where):
+    """The statements executed when `name` holds v: every `if` that tests it is replaced by the branch taken."""
+    out = []
+    for st in stmts:
+        if isinstance(st, ast.If):
+            d = _decide(st.test, name, v, where)
+            if d is None:
+                out.append(ast.copy_location(ast.If(test=st.test, body=_peval(st.body, name, v, where),
+                                                    orelse=_peval(st.orelse, name, v, where)), st))
+            else:
+                out.extend(_peval(st.body if d else st.orelse, name, v, where))
+        else:
+            out.append(st)
+        if pynorm.terminates(out):
+            break
+    return out
 
 
 def _fork(cx):
@@ -360,30 +432,37 @@ NOT_MODELLED = {"AnnAssign", "FunctionDef", "print", "docstring"}
 
 
 def split_arms(body, where, allow_prefix=()):
-    """body of a dispatcher: [prefix defs...] if-arms... raise.  Returns {kind: arm body}."""
+    """body of a dispatcher: [prefix defs...] if-arms... raise.  Returns {kind: arm body}.
+    The body is first brought to the early-return chain form; a test `T1 or T2` / isinstance(stmt, (A, B)) gives one
+    arm per alternative (sound: every translated arm ends in return on every path, the tests have no effect)."""
     arms = {}
     seen_raise = False
-    for st in body:
+    flat = pynorm.flatten(list(body))
+    for idx, st in enumerate(flat):
         if isinstance(st, ast.FunctionDef) and st.name in allow_prefix:
             continue
         if isinstance(st, ast.Expr) and isinstance(st.value, ast.Constant) and isinstance(st.value.value, str):
             continue
         if isinstance(st, ast.If) and not st.orelse:
-            t = _src(st.test)
-            if t not in ARM_TESTS:
-                raise Untranslatable(where, f"unknown dispatch test `{t}` (line {st.lineno})")
-            k = ARM_TESTS[t]
-            if k in arms:
-                raise Untranslatable(where, f"duplicate arm for {k} (line {st.lineno})")
             if seen_raise:
                 raise Untranslatable(where, "arm after the final raise")
-            arms[k] = st.body
+            if not pynorm.terminates(st.body):
+                raise Untranslatable(where, f"arm `{_src(st.test)}` can fall through (line {st.lineno})")
+            for alt in pynorm.disjuncts(st.test):
+                t = _src(alt)
+                if t not in ARM_TESTS:
+                    raise Untranslatable(where, f"unknown dispatch test `{t}` (line {st.lineno})")
+                k = ARM_TESTS[t]
+                if k in arms:
+                    raise Untranslatable(where, f"duplicate arm for {k} (line {st.lineno})")
+                arms[k] = st.body
             continue
         if isinstance(st, ast.Raise):
             seen_raise = True
             continue
-        if isinstance(st, ast.Assign) and _src(st.targets[0]) == "error_message":
-            continue
+        if (isinstance(st, ast.Assign) and len(st.targets) == 1 and isinstance(st.targets[0], ast.Name)
+                and idx + 1 < len(flat) and isinstance(flat[idx + 1], ast.Raise)):
+            continue        # the message of the final raise
         raise Untranslatable(where, f"unexpected statement in dispatcher: `{_src(st)[:60]}` (line {st.lineno})")
     if not seen_raise:
         raise Untranslatable(where, "dispatcher does not end by raising on unsupported statements")
@@ -447,9 +526,15 @@ def translate(path):
 
     notes = []
     # ---- assigned_vars
-    av = meths["assigned_vars"]
-    if [a.arg for a in av.args.args] != ["self", "stmt"]:
-        raise Untranslatable(where, "assigned_vars signature changed")
+    def canon_params(fn, names):
+        if len(fn.args.args) != len(names) or fn.args.posonlyargs or fn.args.kwonlyargs or fn.args.vararg or fn.args.kwarg:
+            raise Untranslatable(where, f"{fn.name}: signature changed (line {fn.lineno})")
+        try:
+            return pynorm.rename_params(fn, names)
+        except pynorm.NotNormalisable as e:
+            raise Untranslatable(where, f"{fn.name}: {e} (line {fn.lineno})") from None
+
+    av = canon_params(meths["assigned_vars"], ["self", "stmt"])
     inner = {n.name: n for n in av.body if isinstance(n, ast.FunctionDef)}
     if set(inner) != {"assigned_in_block"}:
         raise Untranslatable(where, "assigned_vars: unexpected local functions")
@@ -464,7 +549,7 @@ def translate(path):
     notes.append("assigned_vars arms not modelled: " + ", ".join(sorted(k for k in arms if k in NOT_MODELLED)))
 
     # ---- liveness
-    dl = meths["do_liveness_analysis"]
+    dl = canon_params(meths["do_liveness_analysis"], ["self", "fun"])
     body = _strip_doc(dl.body)
     inner = {n.name: n for n in body if isinstance(n, ast.FunctionDef)}
     if set(inner) != {"visit", "do_visit"}:
@@ -472,9 +557,10 @@ def translate(path):
     _check_template("liveness.visit", inner["visit"], where)
     driver = [n for n in body if not isinstance(n, ast.FunctionDef)]
     want_driver = "assert isinstance(fun, ast.FunctionDef)\nlive: set[Any] = set()\nfor s in reversed(fun.body):\n    live = visit(s, live)"
-    if _norm_dump(ast.Module(body=driver, type_ignores=[])) != _norm_dump(ast.parse(want_driver)):
+    if (_norm_dump(ast.Module(body=driver, type_ignores=[])) != _norm_dump(ast.parse(want_driver))
+            and pynorm.alpha_dump_stmts(driver) != pynorm.alpha_dump_stmts(ast.parse(want_driver).body)):
         raise Untranslatable(where, "do_liveness_analysis: driver loop changed")
-    dv = inner["do_visit"]
+    dv = canon_params(inner["do_visit"], ["stmt", "live_out"])
     dinner = {n.name: n for n in dv.body if isinstance(n, ast.FunctionDef)}
     if set(dinner) != {"visit_block"}:
         raise Untranslatable(where, "do_visit: unexpected local functions")
@@ -494,7 +580,7 @@ def translate(path):
     fix_while = fix_while.replace("live_block_", "live_block")
 
     # ---- exposed uses
-    eu = meths["exposed_uses"]
+    eu = canon_params(meths["exposed_uses"], ["self", "stmts"])
     body = _strip_doc(eu.body)
     inner = {n.name: n for n in body if isinstance(n, ast.FunctionDef)}
     if set(inner) != {"visit_block", "visit"}:
@@ -503,7 +589,7 @@ def translate(path):
     rest = [n for n in body if not isinstance(n, ast.FunctionDef)]
     if len(rest) != 1 or _src(rest[0]) != "return visit_block(stmts, set())":
         raise Untranslatable(where, "exposed_uses: final expression changed")
-    arms = split_arms(inner["visit"].body, where)
+    arms = split_arms(canon_params(inner["visit"], ["stmt", "live_out"]).body, where)
 
     def mk_exp(kind):
         cx = ArmCtx(kind, {}, {"visit_block": ("exposed_block_", True, False)}, "exposed_stmt", False)
